@@ -384,10 +384,25 @@ def check_unet_stride(prog: Program, res: Result) -> None:
     for c in decs:
         cs = next((k.value for k in c.keywords if k.arg == "current_stride"), None)
         e = astq.expand_at(fi.node, cs, astq_stmt(c)) if cs is not None else None
+        sts = []
         if isinstance(e, ast.Attribute) and norm(e.value) == "self":   # self.current_stride = <expr>
             sts = [s_ for s_ in walk_function(fi.node) if isinstance(s_, ast.Assign) and norm(s_.targets[0]) == norm(e)]
             e = astq.expand_at(fi.node, sts[0].value, sts[0]) if len(sts) == 1 else e
         txt = norm(e) if e is not None else ""
+        # a list filled in a loop (strides = []; for block in <stack>: strides.append(...)) depends on what the loop iterates
+        loop_iters = []
+        seen_ = set()
+        todo_ = ([cs] if cs is not None else []) + ([sts[0].value] if sts else [])
+        while todo_:
+            x_ = todo_.pop()
+            for nm_ in astq.names_in(x_) - seen_:
+                seen_.add(nm_)
+                for b_ in astq.list_builds(fi.node, nm_):
+                    loop_iters += [g_.iter for g_ in b_.gens]
+                for d_ in astq.assignments_to(fi.node, nm_):
+                    if getattr(d_, "value", None) is not None:
+                        todo_.append(d_.value)
+        txt += " " + " ".join(norm(i_) for i_ in loop_iters)
         ok = "self.enc" in txt or "stem_blocks" in txt or "stem_stride" in txt
         # ... and when it is read off the encoder's stack, it is read off the WHOLE stack (a slice that starts after the stem
         # measures the stride relative to the stem output, not to the image)
@@ -401,6 +416,7 @@ def check_unet_stride(prog: Program, res: Result) -> None:
                     return True
             return False
         part = [g for g in (ast.walk(e) if e is not None else []) if isinstance(g, ast.comprehension) and "encoder_stack" in norm(g.iter) and _partial(g.iter)]
+        part += [ast.comprehension(target=ast.Name(id="_", ctx=ast.Store()), iter=i_, ifs=[], is_async=0) for i_ in loop_iters if "encoder_stack" in norm(i_) and _partial(i_)]
         res.ob(R, not part, fi.qualname, "the pooling strides of the whole encoder stack are multiplied",
                f"the decoder's start stride is computed over `{short(part[0].iter, 50) if part else ''}`, a part of the encoder stack: blocks left out (the stem) still pool, so the "
                "stride labels are too small and Model selects the wrong feature map for each head", f"{fi.module.relpath}:{c.lineno}")
